@@ -34,7 +34,7 @@ TECHNIQUE = "fault-site enumeration over bounded call histories on real connecti
 LEVEL_TEXT = (
     "Fault enumeration: every listed failure kind / early-exit point / log-callback fault, alone and in ordered pairs "
     "(thorough: plus triples sampled), on pipe, unix, tcp and shm-pipe connections (subprocess for a sample), each "
-    "followed by a nonce-echo probe. Held = in every enumerated history every call got its own solo-run response and no call blocked."
+    "followed by a nonce-echo probe.; failure kinds include chained terminal operations on one session (cancel+close, close+cancel, ...) and exchange inputs with another field set on the first or a later turn. Held = in every enumerated history every call got its own solo-run response and no call blocked."
 )
 LEVEL_NOTE = "in-process server threads for pipe/unix/tcp/shm; 'abandon without close' is recorded, not judged (statement names close and cancel only)"
 RULE = "case = (transport, ordered list of step kinds); class = same; non-trivial = history containing at least one non-success step"
